@@ -34,8 +34,8 @@ func (x *Exec) readerContent(st *State, iface *Term) *Term {
 		return rd
 	}
 	tag := IntLit(int64(x.P.typeTag(types.NewPointer(bufT))))
-	theU.DeclFunc("unbox!Int", SInt, SInt)
-	return Ite(Eq(App("typeof", SInt, iface), tag), x.bufGetT(st, App("unbox!Int", SInt, iface), types.NewPointer(bufT)), rd)
+	// a non-nil pointer in an interface is the reference itself (makeIface)
+	return Ite(Eq(App("typeof", SInt, iface), tag), x.bufGetT(st, iface, types.NewPointer(bufT)), rd)
 }
 
 // externalMods: heap keys an external function may write (for mod-set inference).
@@ -145,6 +145,75 @@ func (x *Exec) external(st *State, site ssa.Instruction, callee *ssa.Function, c
 		bbT = types.NewPointer(bt)
 	}
 	switch n {
+	case "golang.org/x/sys/unix.IoctlGetWinsize", "golang.org/x/sys/unix.IoctlGetTermios":
+		// assumed: on success the result points to a structure filled in by the kernel
+		rv := x.freshResult(st, callee.Signature, callee.Name())
+		if len(rv.Tup) == 2 && rv.Tup[0].T != nil && rv.Tup[1].T != nil {
+			st.add(Implies(Eq(rv.Tup[1].T, Zero), Gt(rv.Tup[0].T, Zero)))
+		}
+		x.setResult(st, res, rv)
+		return true
+	case "sort.Sort", "sort.Stable":
+		// assumed: permutes the elements of the collection it is given (through the collection's
+		// own Swap) and touches nothing else; for arrays of up to 3 elements the permutation is
+		// spelled out, otherwise the elements are unknown afterwards
+		mi, ok := c.Args[0].(*ssa.MakeInterface)
+		if !ok {
+			x.havocAllCount++
+			x.havoc(st, map[string]bool{modAll: true})
+			return true
+		}
+		pt, isPtr := mi.X.Type().Underlying().(*types.Pointer)
+		if !isPtr {
+			if _, isSl := mi.X.Type().Underlying().(*types.Slice); !isSl {
+				return true // a value copy: sorting it is invisible to the caller
+			}
+		}
+		var elem types.Type
+		var base *Term
+		n := int64(-1)
+		if isPtr {
+			if at, isArr := pt.Elem().Underlying().(*types.Array); isArr {
+				elem, n = at.Elem(), at.Len()
+				base = x.term(st, x.val(st, mi.X), mi.X.Type())
+			}
+		} else if slt, isSl := mi.X.Type().Underlying().(*types.Slice); isSl {
+			elem = slt.Elem()
+			base = sliceAcc(x.term(st, x.val(st, mi.X), mi.X.Type()), 0)
+		}
+		if elem == nil {
+			x.havocAllCount++
+			x.havoc(st, map[string]bool{modAll: true})
+			return true
+		}
+		k := regHeap("E$"+sortNameOfType(elem), ArrSort(SInt, ArrSort(SInt, sortOfStatic(elem))))
+		arr := st.heapArr(k, heapSorts[k])
+		oldRow := Select(arr, base)
+		newRow := x.freshVar("sorted", ArrSort(SInt, sortOfStatic(elem)))
+		if n >= 0 && n <= 3 {
+			var perms [][]int64
+			switch n {
+			case 0, 1:
+				perms = [][]int64{{0}}
+			case 2:
+				perms = [][]int64{{0, 1}, {1, 0}}
+			case 3:
+				perms = [][]int64{{0, 1, 2}, {0, 2, 1}, {1, 0, 2}, {1, 2, 0}, {2, 0, 1}, {2, 1, 0}}
+			}
+			var alts []*Term
+			for _, p := range perms {
+				var cs []*Term
+				for i := int64(0); i < n; i++ {
+					cs = append(cs, Eq(Select(newRow, IntLit(i)), Select(oldRow, IntLit(p[i]))))
+				}
+				alts = append(alts, And(cs...))
+			}
+			if n > 0 {
+				st.add(Or(alts...))
+			}
+		}
+		st.heap[k] = Store(arr, base, newRow)
+		return true
 	case "math.Round":
 		k := x.freshVar("round", SInt)
 		st.add(Eq(k, App("iround", SInt, at(0))))
@@ -213,6 +282,24 @@ func (x *Exec) external(st *State, site ssa.Instruction, callee *ssa.Function, c
 		x.bufSetT(st, b, bbT, x.concat(st, x.bufGetT(st, b, bbT), c1))
 		x.setResult(st, res, Val{T: Zero})
 		return true
+	case "(*bytes.Buffer).ReadBytes", "(*bytes.Buffer).ReadString":
+		// assumed: the unread contents split into the returned line and the rest; without an
+		// error the line is non-empty (it ends with the delimiter); with an error (io.EOF)
+		// everything that was left has been returned and the buffer is empty
+		old := x.bufGetT(st, at(0), bbT)
+		line := x.freshVar("line", SStr)
+		rest := x.freshVar("rest", SStr)
+		x.strFacts(st, line)
+		x.strFacts(st, rest)
+		errv := x.freshVar("rberr", SInt)
+		st.add(Ge(errv, Zero))
+		st.add(Eq(x.slenOf(st, old), Add(x.slenOf(st, line), x.slenOf(st, rest))))
+		st.add(Eq(App("dw", SInt, old), Add(App("dw", SInt, line), App("dw", SInt, rest))))
+		st.add(Implies(Eq(errv, Zero), Ge(x.slenOf(st, line), One)))
+		st.add(Implies(Neq(errv, Zero), Eq(x.slenOf(st, rest), Zero)))
+		x.bufSetT(st, at(0), bbT, rest)
+		x.setResult(st, res, Val{Tup: []Val{{T: line}, {T: errv}}})
+		return true
 	case "(*bytes.Buffer).Reset":
 		x.bufSetT(st, at(0), bbT, strEmpty)
 		return true
@@ -268,7 +355,8 @@ func (x *Exec) external(st *State, site ssa.Instruction, callee *ssa.Function, c
 		return true
 	case "strings.NewReader", "bytes.NewReader":
 		r := x.newRef(st, "reader")
-		st.add(Eq(App("typeof", SInt, r), IntLit(int64(x.P.tagByName("*strings.Reader")))))
+		// dynamic type = the constructor's result type (*strings.Reader / *bytes.Reader)
+		st.add(Eq(App("typeof", SInt, r), IntLit(int64(x.P.typeTag(callee.Signature.Results().At(0).Type())))))
 		x.rdSet(st, r, at(0))
 		x.setResult(st, res, Val{T: r})
 		return true
@@ -357,7 +445,10 @@ func (x *Exec) external(st *State, site ssa.Instruction, callee *ssa.Function, c
 	switch {
 	case strings.HasPrefix(n, "fmt.Fprint"):
 		w := at(0)
-		_ = w
+		if x.full {
+			// a nil io.Writer makes fmt call a method on a nil interface: a panic in the caller's goroutine
+			x.oblige(st, "nil", fmt.Sprintf("#%d", x.ordinal("nil", site)), Neq(w, Zero), site.Pos(), "non-nil writer handed to "+n)
+		}
 		nn := x.freshVar("n", SInt)
 		st.add(Ge(nn, Zero))
 		x.setResult(st, res, Val{Tup: []Val{{T: nn}, {T: x.errResult(st)}}})
